@@ -52,7 +52,12 @@ use std::future::Future;
 use std::pin::Pin;
 use std::sync::Arc;
 use std::sync::atomic::{AtomicU64, AtomicUsize, Ordering};
+#[cfg(not(zipora_verif))]
 use std::time::{Duration, Instant};
+#[cfg(zipora_verif)]
+use std::time::Duration;
+#[cfg(zipora_verif)]
+use crate::verif::time::Instant;
 use tokio::sync::{Mutex, RwLock, mpsc};
 use tokio::time::timeout;
 
